@@ -360,3 +360,61 @@ func c04Round5(c *Ctx) {
 		c.Check(n == 2 && bad == "", "C04.merge", fname(fn)+":both children merged unconditionally", c.P.Pos(fn.Pos()), "the two recursive merges are not guarded by a test of the children", "a child merge is skipped under a caller-side test of a child pointer ("+bad+"; recursive merges="+itoa(n)+"): the nil / hash-only handling is the callee's, and skipping it lets a later proof with an absent child be dereferenced")
 	}
 }
+
+// c13Round5 (seeds C13r5/13..15).
+func c13Round5(c *Ctx) {
+	const pb = "storage/mkvs/db/pathbadger"
+	// (13) pathbadger stores a write log only when the tree built one: a nil log (a tree opened without write log)
+	// stores nothing, so that GetWriteLog answers "not found" rather than an empty diff between two different roots.
+	if fn := c.needFn("C13.writelog", pb+".storeInternalWriteLog"); fn != nil {
+		sets := CallsTo(fn, "batch.Set(write log)", "github.com/dgraph-io/badger/v4.(*WriteBatch).Set", "")
+		c.DominatedByCond("C13.writelog", fn, "writeLog != nil", `^param:writeLog != nil$`, sets, "a tree that builds no write log hands over nil; storing an (empty) log for it makes the database serve an empty diff for a transition that changed keys")
+	}
+	// (14) every node a pathbadger batch stores goes to the batch's own keyspace (deriveNodeDbKey) and is recorded in
+	// updatedNodes first, so that finalization copies the finalized root's nodes and discards the others'. A node
+	// written straight into the finalized keyspace by a batch that is not the first of its version overwrites the
+	// sibling root's node under the same (version, index) key.
+	if fn := c.needFn("C13.resolve", pb+".(*badgerBatch).PutNode"); fn != nil {
+		sets := CallsTo(fn, "node Set", "github.com/dgraph-io/badger/v4.(*WriteBatch).Set", "")
+		upd := StoresTo(fn, "updatedNodes = append(…)", pb+".badgerBatch.updatedNodes")
+		hit := Reach(fn, nil, nil, anyOf(sets.Ins), NewCut().AddInstr(upd.Ins...))
+		site := c.P.Pos(fn.Pos())
+		if hit != nil {
+			site = c.P.InstrPos(hit)
+		}
+		c.Check(!upd.Empty() && !sets.Empty() && hit == nil, "C13.resolve", fname(fn)+":a stored node is recorded in updatedNodes before it is written", site, "every node write is preceded by the append to updatedNodes", "PutNode can write a node that it did not record in updatedNodes: finalization neither copies it for the finalized root nor discards it for the others")
+		ok, bad := !sets.Empty(), ""
+		for _, call := range sets.Calls() {
+			a := allArgs(call)
+			if len(a) < 2 || !strings.Contains(vstr(a[1]), "deriveNodeDbKey(") {
+				ok = false
+				if len(a) >= 2 {
+					bad = vstrShort(a[1])
+				}
+			}
+		}
+		c.Check(ok, "C13.resolve", fname(fn)+":nodes are written under the batch's derived key", c.P.Pos(fn.Pos()), "every node write uses deriveNodeDbKey(key)", "PutNode writes a node under a key that is not derived from the batch's sequence number ("+bad+"): a second batch of a version overwrites nodes of the first")
+	}
+	// (15) Apply works on a tree of its own, opened at the given root and discarded afterwards: the tree the write log
+	// is applied to is created by NewWithRoot(…, root) in Apply itself — nothing kept from an earlier (possibly
+	// rejected) Apply, whose dirty nodes would take part in the next result.
+	if fn := c.needFn("C13.apply", "storage/api.(*RootCache).Apply"); fn != nil {
+		aw := CallsTo(fn, "tree.ApplyWriteLog", "storage/mkvs.(Tree).ApplyWriteLog", "")
+		ok, bad := !aw.Empty(), ""
+		for _, call := range aw.Calls() {
+			for _, r := range Roots(recvOf(call)) {
+				if r.Kind == "alloc" {
+					continue
+				}
+				if r.Kind == "call" && r.Name == "storage/mkvs.NewWithRoot" {
+					if cl, isCall := r.Val.(*ssa.Call); isCall && len(cl.Call.Args) >= 3 && vstr(cl.Call.Args[2]) == "param:root" {
+						continue
+					}
+				}
+				ok = false
+				bad = r.String()
+			}
+		}
+		c.Check(ok, "C13.apply", fname(fn)+":the write log is applied to a fresh tree at the given root", c.P.Pos(fn.Pos()), "ApplyWriteLog's receiver is NewWithRoot(…, root) created in Apply", "the tree a received write log is applied to is not (only) a tree freshly opened at the given root ("+bad+"): state left by an earlier Apply takes part in the result that is compared with the expected root")
+	}
+}
